@@ -296,6 +296,15 @@ def resetInv (s : CS) : Bool :=
      (match s.ro.sub with | some sub => sub.canaryRev != "" && sub.canaryRev != w.updateRevision | none => false) &&
      w.updateRevision != w.currentRevision && decide (0 < w.replicas) && w.updated == 0 && held w && brHoldsO s.br w)
 
+/-- the reset cursor reaches its last stage (`RemoveCanaryService`, only with traffic routing) only once the BatchRelease is gone -/
+def resetCursor (s : CS) : Bool :=
+  match s.ro.sub with
+  | some sub => !(s.ro.hasTraffic && sub.finStep == .removeCanaryService) || s.br.isNone
+  | none => true
+
+/-- the invariant of the supersession theorems: the forward invariant, or the reset invariant -/
+def supInv (s : CS) : Bool := fwdInv s || (resetInv s && resetCursor s)
+
 /-- a superseding release is legal (for the theorems) when the rollout is rolling on a workload with at least one replica, the
     revision is new, and the BatchRelease — if one exists — is Progressing with the rolled revision and the workload's size
     recorded (outside known finding `supersedeBeforeInit`: a BatchRelease not yet initialised adopts the new revision) -/
@@ -321,7 +330,7 @@ def legalS (s : CS) : Label → Bool
 def totalOK (s : CS) : Bool := (step s .ro).isSome && (step s .br).isSome
 
 def stateOracles (s : CS) (fwd : Bool) (del : Bool := false) (sup : Bool := false) : List (String × Bool) :=
-  let inv := (!fwd || fwdInv s) && (!del || delInv s) && (!sup || fwdInv s || resetInv s)
+  let inv := (!fwd || fwdInv s) && (!del || delInv s) && (!sup || supInv s)
   [("C01.loop_inv", inv), ("C02.loop_inv", inv), ("C06.loop_inv", inv), ("C07.loop_inv", inv), ("C09.loop_inv", inv),
    ("C09.loop_total", totalOK s), ("C06.loop_total", totalOK s),
    ("C01.loop_exposure", exposureOK s), ("C06.loop_exposure", exposureOK s),
